@@ -427,6 +427,52 @@ def execute(sc):
             fk = None          # the malformed call is in an unreachable file
         if fk == 'ENOENT' and err is None:
             fk = None              # the removed package was not reachable
+        if sc.get('rebuild'):
+            # the same project was built once before with older file
+            # contents; every file is then rewritten in place.  The build
+            # under test must reflect the files as they are now.
+            for i, p in enumerate(sc2['pkgs']):
+                if fk == 'ENOENT' and fault['pkg'] == i:
+                    continue
+                w.put(_dir_of(sc2, i) + p['name'] + '.lua',
+                      ('old_%d=1\n' % i).encode() +
+                      _fix_at(render(sc2, i)).encode())
+            w.put('proj/main.lua', b'old_main=1\n' + main_text.encode())
+            try:
+                rrc = tool.main(argv)
+            except BaseException:
+                rrc = 'raised'
+            core.bump(res['probes'], 'earlier-build-of-older-files' if
+                      rrc == 0 else 'earlier-build-failed')
+            for i, p in enumerate(sc2['pkgs']):
+                if fk == 'ENOENT' and fault['pkg'] == i:
+                    continue
+                w.put(_dir_of(sc2, i) + p['name'] + '.lua',
+                      _fix_at(render(sc2, i)).encode())
+            w.put('proj/main.lua', main_text.encode())
+            if sc.get('out_prior') != 'cart' and os.path.exists(
+                    w.p(out_rel)):
+                os.unlink(w.p(out_rel))
+            elif sc.get('out_prior') == 'cart':
+                w.put(out_rel, refcodec.encode_any(out_rel, prior))
+            w.err.seek(0)
+            w.err.truncate(0)
+        if sc.get('warmup'):
+            # an unrelated project is built first in the same process: nothing
+            # of it may show up in (or influence) the build under test
+            w.put('warm/main.lua', b'warm_main=1\nrequire("w0")\n'
+                  b'require("w1",{use_game_loop=true})\n')
+            w.put('warm/w0.lua', b'warm_w0=1\nfunction _init() end\n')
+            w.put('warm/w1.lua', b'function _draw() end\nwarm_w1=1\n')
+            try:
+                wrc = tool.main(['build', w.p('warm/out.p8'), '--lua',
+                                 w.p('warm/main.lua')])
+            except BaseException:
+                wrc = 'raised'
+            core.bump(res['probes'], 'warmup-build-before' if wrc == 0
+                      else 'warmup-build-failed')
+            w.err.seek(0)
+            w.err.truncate(0)
         before = w.snap(out_rel)
         exc = None
         rc = None
@@ -732,6 +778,10 @@ def generate(rng, prop, tier, index):      # noqa: F811
     # cyclic graphs run under the step-bounded tracer (termination detector)
     if _has_cycle(sc) and index % 3 == 0:
         sc['traced'] = True
+    if index % 5 == 2:
+        sc['warmup'] = True
+    if index % 5 == 4:
+        sc['rebuild'] = True
     return sc
 
 
@@ -776,6 +826,10 @@ def shrink(sc):
             yield dict(sc, **{k: v})
     if sc.get('traced') and not _has_cycle(sc):
         yield dict(sc, traced=False)
+    if sc.get('warmup'):
+        yield dict(sc, warmup=False)
+    if sc.get('rebuild'):
+        yield dict(sc, rebuild=False)
 
 
 def _with_file(sc, frm, nf):
